@@ -73,7 +73,7 @@ def skel_apk_apk_copyToTarAndDigest : List Bytes := [
 ]
 /-- statement skeleton of apk/apk.go createBuilderControl -/
 def skel_apk_apk_createBuilderControl : List Bytes := [
-  b!"return func(v0*tar.Writer)error{var v1 bytes.Buffer if err:=writeControl(&v1,controlData{Info:p0,InstalledSize:p1,Dataha...#65eca5dc1961217f"
+  b!"return func(v0*tar.Writer)error{var v1 bytes.Buffer if err:=writeControl(&v1,controlData{Info:p0,InstalledSize:p1,Dataha...#745205516386c414"
 ]
 /-- statement skeleton of deb/deb.go Package -/
 def skel_deb_deb_Package : List Bytes := [
